@@ -1,5 +1,5 @@
 """C14: see DESIGN.md section 4 C14 (fault enumeration inside new_cyclic)."""
-from _ccmon import native, miri, evolve, floor_msgs, COMMON_ASSUMPTIONS
+from _ccmon import native, miri, evolve, floor_msgs, COMMON_ASSUMPTIONS, EVOLVE_NOTE
 from driver import FULL, ALL_FEATURE_SETS
 
 LEVEL = "fault_enumeration"
@@ -10,6 +10,7 @@ RULE = ("histories of mode C14 (16% new_cyclic with closure scripts: clone / sto
         "invocation of a collection started by that call): no payload callback may run on a value that was never constructed (canary), the box "
         "and side record must be released, saved Weak clones must stay dead. evaluations = runs; distinct = distinct (history, fault point) "
         "pairs and distinct panic-free histories; non-trivial iff the history executed at least one new_cyclic call.")
+RULE += EVOLVE_NOTE
 ASSUMPTIONS = COMMON_ASSUMPTIONS
 
 
